@@ -48,6 +48,23 @@ def render_tree(tree, mode):
     return files
 
 
+def ws_files(c):
+    """MC_C06_ws case -> workspace: providers p1..pn each define `Dup`, the consumer uses it in the given form"""
+    n = c["providers"]
+    files = {}
+    for i in range(1, n + 1):
+        ren = f'#[serde(rename = "Dup{i}Renamed")]\n' if c["renames"] == "all" or (c["renames"] == "one" and i == 1) else ""
+        files[f"p{i}/src/lib.rs"] = f"#[typeshare]\n{ren}pub struct Dup {{ pub in_p{i}: u32 }}\n#[typeshare]\npub struct Only{i} {{ pub o: u32 }}\n"
+    use, ty = {"use_unknown": ("use zzz::Dup;\n", "Dup"), "use_facade": ("use facade::Dup;\n", "Dup"), "bare": ("", "Dup"),
+               "glob_all": ("".join(f"use p{i}::*;\n" for i in range(1, n + 1)), "Dup"), "qualified_unknown": ("", "zzz::Dup"),
+               "use_first": ("use p1::Dup;\n", "Dup")}[c["form"]]
+    if c["form"] == "use_facade":
+        files["facade/src/lib.rs"] = "pub use p1::Dup;\n#[typeshare]\npub struct FacadeOwn { pub f: u32 }\n"
+    files["app/src/lib.rs"] = (use + f"#[typeshare]\npub struct UsesDup {{ pub d: {ty}, pub list: Vec<{ty}>, pub m: Option<{ty}> }}\n"
+                               f'#[typeshare]\n#[serde(tag = "t", content = "c")]\npub enum EDup {{ A({ty}), B {{ x: {ty} }} }}\n')
+    return files
+
+
 def out_sha(outdir):
     h = hashlib.sha256()
     for rel, (sha, _) in sorted(cli.snapshot(outdir).items()):
@@ -224,6 +241,28 @@ def run(chk):
                 raise ToolError(f"typeshare failed: {r['stderr'][-300:]}")
             col.add(f"hash{k}", sha, {"mode": "multi", "dim": "fresh-process", "features": "import-fallback-same-name-in-several-crates",
                                       "lang": lang, "detail": f"process {rep}"})
+    # hash-order side, systematically: MC_C06_ws workspaces with an ambiguous name, each in several fresh processes
+    wres = common.run_tlc("MC_C06_ws", cfg="MC_C06_ws_thorough" if thorough else "MC_C06_ws_quick", workers=2, timeout=300)
+    chk.add_tlc("MC_C06_ws", wres)
+    if not wres.replays:
+        raise ToolError("MC_C06_ws produced no cases")
+    reps = 24 if thorough else 8
+
+    def do_ws(args):
+        k, c = args
+        d = os.path.join(work, f"ws{k}")
+        cli.make_tree(os.path.join(d, "src_root"), ws_files(c))
+        return k, c, [run_once(d, c["lang"], c["mode"], {}, f"s{rep}")[:2] for rep in range(reps)]
+
+    with cf.ThreadPoolExecutor(max_workers=12) as ex:
+        for k, c, outs in ex.map(do_ws, list(enumerate(wres.replays))):
+            for rep, (r, sha) in enumerate(outs):
+                if r["exit"] != "ok":
+                    sha = "refused:" + r["exit"]       # whatever the outcome is, it must be the same in every process
+                col.add(f"ws{k}", sha, {"mode": c["mode"], "dim": "fresh-process", "lang": c["lang"],
+                                        "features": f"ambiguous-name/{c['form']}/renames-{c['renames']}", "detail": f"{c} process {rep}", "ws": c})
+    chk.extra["ambiguous_name_workspaces"] = len(wres.replays)
+    chk.extra["processes_per_workspace"] = reps
     # split invariance (single-file mode): the same items in one file, one file per item, grouped by kind
     for k, tree in enumerate(sample):
         lang = langs[(k + 3) % 6]
